@@ -136,8 +136,24 @@ def invoke(argv, env):
     return rec
 
 
-def run_case(option, present, cmd, d):
+# how each source spells the built-in default of an option (Options.tla: CanSpell)
+SPELL_DEFAULT = {
+    'concurrent': dict(cli=['-c', '5'], profile=('concurrent', 5), default=('concurrent', '5'), value=5),
+    'hide-progress': dict(profile=('hide-progress', False), default=('hide-progress', 'false'), value=False),
+    'log-level': dict(profile=('log-level', 'warning'), default=('log-level', 'warning'), value=logging.WARNING),
+    's3c.scheme': dict(cli=['--scheme', 'https'], env={'S3C_SCHEME': 'https'}, profile=('scheme', 'https'), default=('scheme', 'https'), value='https'),
+    'pc.port': dict(cli=['--port', '9877'], env={'PC_PORT': '9877'}, profile=('port', 9877), default=('port', '9877'), value=9877),
+    'pc.secure': dict(cli=['--secure', 'true'], env={'PC_SECURE': 'True'}, profile=('secure', True), default=('secure', 'true'), value=True),
+}
+
+
+def run_case(option, present, cmd, d, same='none'):
     sp = spec_for(option, d)
+    if same != 'none':
+        sp = dict(sp)
+        sp[same] = SPELL_DEFAULT[option][same]
+        sp['vals'] = dict(sp['vals'], **{same: SPELL_DEFAULT[option]['value']})
+        assert sp['vals']['builtin'] == SPELL_DEFAULT[option]['value']
     default_lines, profile_lines, env, opts = [], [], {}, []
     if 'default' in present:
         default_lines.append('%s = %s' % (sp['default'][0], toml_value(sp['default'][1])))
@@ -155,7 +171,7 @@ def run_case(option, present, cmd, d):
     cfgfile.write_text('\n'.join(default_lines) + '\n[prof]\n' + '\n'.join(profile_lines) + '\n', encoding='utf-8')
     argv = ['replicat', cmd] + [{'PATH': str(d), 'SNAP': 'abc', 'OBJ': 'o'}.get(x, x) for x in POSITIONAL[cmd]] + ['--config', str(cfgfile), '--profile', 'prof'] + opts
     r = invoke(argv, env)
-    ev = {'kind': 'case', 'option': option, 'present': sorted(present), 'cmd': cmd, 'ran': 'exit' not in r, 'consistent': [], 'typeok': True, 'exit': r.get('exit', '~')}
+    ev = {'kind': 'case', 'option': option, 'present': sorted(present), 'cmd': cmd, 'same': same, 'ran': 'exit' not in r, 'consistent': [], 'typeok': True, 'exit': r.get('exit', '~')}
     if ev['ran']:
         got = sp['observe'](r)
         if got == '__missing__' and sp['vals']['builtin'] != '__missing__':
@@ -205,11 +221,11 @@ def main(run):
         replicat.__path__.append(str(d / 'ns' / 'replicat'))
         replicat.backends.__path__.append(str(ns))
         try:
-            for option, present, cmd, winner in cases:
-                ev = run_case(option, set(present), cmd, d)
+            for option, present, cmd, winner, same in cases:
+                ev = run_case(option, set(present), cmd, d, same)
                 ev['expected'] = winner
                 events.append(ev)
-                run.case((option, tuple(sorted(present)), cmd), nontrivial=len(present) > 0)
+                run.case((option, tuple(sorted(present)), cmd, same), nontrivial=len(present) > 0)
             events += exclusive_cases(d)
         finally:
             sys.path.remove(str(d / 'ns'))
@@ -220,12 +236,12 @@ def main(run):
         cls = 'any'
         if clause == 'P:InvocationAccepted' and e['option'].startswith('pc.') and 'profile' in e['present'] and 'AttributeError' in e['exit']:
             cls = 'backend option given as a TOML integer or boolean'
-        fresh = run.violation(clause, cls, {k: e.get(k) for k in ('option', 'present', 'cmd', 'consistent', 'expected', 'got', 'exit')})
+        fresh = run.violation(clause, cls, {k: e.get(k) for k in ('option', 'present', 'same', 'cmd', 'consistent', 'expected', 'got', 'exit')})
         return not fresh
     final, states = tlc.validate_loop('OptionsTrace', 'Trace_Options.cfg', [{'events': events}], on_reject, rounds=4000)
     run.add(traces_validated_against_impl=len(events))
-    run.sample({k: events[37].get(k) for k in ('option', 'present', 'cmd', 'consistent', 'expected', 'got')})
-    run.coverage['rule'] = ('a case is one invocation of replicat.__main__.main(): option x subset of {cli, env, profile, default} x command, complete '
+    run.sample({k: events[37].get(k) for k in ('option', 'present', 'same', 'cmd', 'consistent', 'expected', 'got')})
+    run.coverage['rule'] = ('a case is one invocation of replicat.__main__.main(): option x subset of {cli, env, profile, default} x command x which source (if any) spells out the built-in default, complete '
                             'enumeration by TLC; non-trivial = the option is set in at least one source; plus the mutual-exclusion cases')
     run.assumptions += ['the command handler is replaced by a recorder: what reaches it is the effective value']
 
